@@ -124,7 +124,7 @@ def check_parse(repo_src, rnd, table=None, inputs=None):
     for c, r in zip(cases, res):
         s = c['s']
         if r is None or r.get('panic'):
-            out.append(_disc('parse', ['C01'], c, 'Ok or Err', 'panic/abort', 'parse_expression (or expr()/describe() of its result) did not return'))
+            out.append(_disc('parse', ['C01', 'C18', 'C12'], c, 'Ok or Err', 'panic/abort', 'parse_expression (or expr()/describe() of its result) did not return'))
             continue
         try:
             ast = oracle.parse(s, T); exp = ('ok', oracle.dbg(ast))
@@ -141,6 +141,12 @@ def check_parse(repo_src, rnd, table=None, inputs=None):
                 out.append(_disc('parse', ['C05', 'C10'], c, 'Err (%s)' % exp[1], r.get('ast'), 'malformed input is accepted'))
             elif exp[0] == 'ok' and r.get('ast') != exp[1]:
                 out.append(_disc('parse', ['C02', 'C10', 'C09'], c, exp[1], r.get('ast'), 'the AST differs from the documented grouping / token text'))
+        if r.get('ok') and exp is not None and exp[0] == 'ok' and r.get('ast') == exp[1]:
+            try:
+                dd = oracle.describe(ast)
+                if r.get('describe') != dd:
+                    out.append(_disc('describe', ['C18'], c, dd, r.get('describe'), 'describe() differs from the documented default rendering'))
+            except Exception: pass
         if r.get('ok'):
             if not r.get('ok2'):
                 out.append(_disc('roundtrip', ['C12'], c, 'expr() re-parses', 'expr()=%r -> Err(%s)' % (r.get('expr'), r.get('err2')), 'expr() output is not accepted by parse_expression'))
